@@ -108,6 +108,29 @@ def main():
     if not (pv[0] == "ok" and pv[1] == "3"):
         rep.violation("c01:false-rejection:address-of-element-of-array-variable", {
             "why": "`bump(&g[1])` with `g: [3]i32` and `fn bump(r: &i32)` should compile and return 3: " + pa[:200], "source": probe})
+    # long loops: a terminating loop of 2 000 000 rounds with local variables (scalars, an array, a structure) declared in
+    # the looped block; the stack must not grow with the number of rounds (F54)
+    for k, (n, decls, expr, want) in enumerate([
+            (2000000, "\t\tvar t: i32 = i % 7;\n\t\tvar buf: [64]u8;\n\t\tbuf[0] = 1;\n", "t + (buf[0] as i32)", None),
+            (1500000, "\t\tvar a: i64 = 3;\n\t\tvar b: i64 = a + 1;\n\t\tvar q: [8]i64 = [1, 2, 3, 4, 5, 6, 7, 8];\n", "(q[(i % 8) as usize] as i32) + ((b - a) as i32)", None)]):
+        src = ("fn main() -> i32\n{\n\tvar i: i32 = 0;\n\tvar total: i32 = 0;\n\t{\n\t\tif i == %d\n\t\t\tgoto end;\n%s"
+               "\t\ttotal = (total + %s) %% 1000;\n\t\ti = i + 1;\n\t\tloop;\n\t}\n\tend:\n\treturn: total %% 200\n}\n" % (n, decls, expr))
+        tot = 0
+        for i in range(n):
+            tot = (tot + ((i % 7) + 1 if k == 0 else ((i % 8) + 1) + 1)) % 1000
+        la = runlib.impl_run([src])[0]
+        lv = runlib.impl_obs(la)
+        dist["long-loop"] += 1
+        if lv[0] == "ok" and lv[1] == str(tot % 200):
+            agreeing += 1
+        else:
+            rep.violation("oracle:long-loop:%d" % k, {"why": "a loop of %d rounds with local variables should end with status %d: %s" % (n, tot % 200, la[:200]), "source": src})
+    fl = ("fn main() -> i32\n{\n\tvar i: i32 = 0;\n\tvar total: usize = 0;\n\t{\n\t\tif i == 2000000\n\t\t\tgoto end;\n\t\tvar s = format!(i);\n"
+          "\t\ttotal = total + |s|;\n\t\ti = i + 1;\n\t\tloop;\n\t}\n\tend:\n\treturn: 7\n}\n")
+    fa = runlib.impl_run([fl])[0]
+    fv = runlib.impl_obs(fa)
+    if not (fv[0] == "ok" and fv[1] == "7"):
+        rep.violation("c01:long-loop:format-in-loop-exhausts-the-stack", {"why": "a loop that calls format! 2 000 000 times should return 7: " + fa[:200], "source": fl})
     # control flow: skeleton programs of opaque actions and oracle-driven conditions (blocks, if / else / else-if, forward
     # gotos, labels, blocks ending in `loop`).  Three observations must coincide: the trace the real program prints, the trace
     # of the source semantics (CF.execL) and the trace of the flow graph the Lean lowering produces (CF.run); and the basic
